@@ -1420,3 +1420,8 @@ SPECS["C05"]["level_text"] += (' Props/C05R (track rdrworld): the item C05H left
     'backfill, drains, lend, read_n, push_anchor) and at EVERY micro-step - also in the middle of an anchored call - step_good holds: each slice of the iovec in '
     'chunk k is guarded by an anchor of the deque or by the held slice\'s anchor, ArenaInv before and after, and the conclusion of C05.no_overlap (one fresh range '
     'at or above the end of every existing slice of its chunk, the held slice included).')
+# ---- track rdrworld: world-level StreamChunker / StreamReader (Model/StreamWorld.lean): placement of every slice handed out + live set
+SPECS["C05"]["families"] += [
+    dict(name="chunkerw", quick=240, thorough=16000, search=2000, shards=dict(quick=2, thorough=16)),
+    dict(name="readerw", quick=150, thorough=8000, search=1000, shards=dict(quick=6, thorough=16)),
+]
